@@ -417,7 +417,8 @@ class C15(core.Check):
     assumptions = [
         "terminal sizes >= 1x1; util.get_encoding() is one of 'utf8', 'utf-8', 'ascii'",
         "the widget callbacks (respond, set_title, beep, leds) do not raise and do not re-enter the canvas",
-        "CSI parameters of more than 4300 digits are not generated (the model treats them like the code: int() fails -> default)",
+        "CSI parameters of more than 4300 digits are not generated (the model treats them like the code: int() fails -> default); vterm_refines_vt100 assumes parameters below 2^4000",
+        "vterm_refines_vt100 stops before the points on which VT100-family terminals differ (LF/RI/HT with the last-column flag set, CUU/CUD across a margin of a partial region)",
         "the Terminal widget's pty / process handling and key translation are not covered",
     ]
 
@@ -1107,19 +1108,21 @@ class C15(core.Check):
 C15.level_text = (
     "Proved in Coq for EVERY session from a fresh terminal - every byte stream, every chunking, every interleaving of "
     "resizes (sizes >= 1x1), view scrolling and focus changes, no bound on lengths or parameters - about the executable "
-    "model of TermCanvas (vterm_safe): the run never raises (no IndexError from any grid / tab-stop access, no "
+    "model of TermCanvas (vterm_safe): the run never raises (no IndexError from any grid / tab-stop / palette access, no "
     "AttrSpecError from SGR, enough fuel for the tab loop); the size follows the resizes; the grid and the view handed to "
     "the renderer (scrolled back or not) have exactly height rows of exactly width cells; term_cursor, the canvas cursor "
     "and the scrolling region stay inside; the view offset stays within the scrollback; every reply written to the pty "
     "matches ESC[0n | ESC[?6c | ESC[[1-9][0-9]*;[1-9][0-9]*R.  chunking_irrelevant: feeding a stream in pieces equals "
-    "feeding it whole anywhere in a session.  scrollback_in_order(_scroll): a scroll appends exactly the departing top "
-    "line; after any feed the scrollback is a suffix of (old scrollback ++ new lines); scrolled_back_view: the view shows "
-    "rows [len-k, len-k+height) of scrollback ++ screen padded/cut to the width.  Proofs also cover the translated "
-    "constrain_coords and the generated CSI table.  ORACLE / CORRESPONDENCE ONLY: equality with the reference VT100 on the "
-    "stated subset (vterm_refines_vt100_full is stated, NOT proved; the implementation, the extracted emulator model, the "
-    "extracted Coq reference and an independent Python reference are run against each other on generated command lists, "
-    "with closed Coq examples for the formerly failing sequences); the tie of the hand model to vterm.py (exact "
-    "whole-state correspondence on ~9k cases per quick run).")
+    "feeding it whole anywhere in a session.  scrollback_in_order(_scroll) and scrolled_back_view: a scroll appends "
+    "exactly the departing top line, the scrollback only grows at its end, the scrolled-back view shows rows "
+    "[len-k, len-k+height) of scrollback ++ screen.  vterm_refines_vt100 (now a THEOREM, no longer oracle-only): for any "
+    "command list over printable text with autowrap, CR LF BS HT, CUP CUU CUD CUF CUB, EL ED, ICH DCH IL DL, DECSTBM, RI, "
+    "classic SGR and DSR, any size, parameters below 2^4000, the emulator model fed with the byte encoding ends with "
+    "screen contents, renditions, cursor and scrolling region equal to the independent reference VT100 (parser lemma on "
+    "the decimal encoding + one simulation lemma per command + induction).  ORACLE / CORRESPONDENCE ONLY: the palette "
+    "(38;5;n) and direct (38;2;r;g;b) colour forms and replies/scrollback of the reference (implementation, extracted "
+    "emulator model, extracted Coq reference and an independent Python reference run against each other); the tie of the "
+    "hand model to vterm.py (exact whole-state correspondence on ~9k cases per quick run).")
 C15.level_note = (
     "Trusted: Coq kernel, py2v (csi_table / constrain_coords / DEC map regenerated each run), extraction + driver, the "
     "hand model VTerm.v and the AttrSpec abstraction (both validated by correspondence only), PyList semantics, the Python "
